@@ -723,6 +723,43 @@ fn check_helpers(n: usize, p: &mut Partial) {
         p.class(format!("lowrank:rank={r}"));
     }
 
+    // the three flow kernels called REPEATEDLY on one backend object with recurring angles of both
+    // signs (angles beyond pi included: sin < 0): every call is the scalar formula, whatever the
+    // backend did before
+    if n >= 1 && (n <= 4 || n == 17 || n == 64) {
+        let pos = base(n, 1);
+        let vel = base(n, 3);
+        let angles = [4.0, 4.0, -4.0, 4.0, 5.5, -5.5, 5.5, 100.0, 100.0, 0.5, 0.5, -0.5, 3.5, -3.5, 3.5, 0.0, 3.5, std::f64::consts::PI, -std::f64::consts::PI, 6.0, 6.0];
+        for (call, a) in angles.into_iter().enumerate() {
+            let mut po = m.new_array();
+            let mut v = col(&vel);
+            m.std_norm_flow(&col(&pos), &mut po, &mut v, a);
+            let (sn, cs) = (a.sin(), a.cos());
+            p.evaluations += 1;
+            let bad = (0..n).find(|&i| {
+                let want_p = pos[i] * cs + vel[i] * sn;
+                let want_v = -pos[i] * sn + vel[i] * cs;
+                let tol = 64.0 * f64::EPSILON * (pos[i].abs() + vel[i].abs());
+                (po[i] - want_p).abs() > tol || (v[i] - want_v).abs() > tol
+            });
+            if let Some(i) = bad {
+                viol(format!("std_norm_flow repeated on one backend n={n} call={call} angle={a}"), format!("element {i}: got ({}, {}), scalar formula gives ({}, {})", po[i], v[i], pos[i] * cs + vel[i] * sn, -pos[i] * sn + vel[i] * cs), p);
+                break;
+            }
+            let mut o = m.new_array();
+            m.std_norm_grad_flow(&col(&pos), &col(&vel), &col(&pos), &mut o, a);
+            let mut vi = col(&vel);
+            m.std_norm_grad_flow_inplace(&col(&pos), &col(&pos), &mut vi, a);
+            let mut o2 = m.new_array();
+            m.std_norm_grad_flow(&col(&pos), &col(&vel), &col(&pos), &mut o2, a);
+            if !mc_core::slice_bits_eq(&uncol(&o), &uncol(&o2)) {
+                viol(format!("std_norm_grad_flow repeated on one backend n={n} call={call} angle={a}"), "two identical calls give different results".into(), p);
+                break;
+            }
+        }
+        p.class("flow-history".to_string());
+    }
+
     // ESH update vs closed form (needs n >= 2)
     if n >= 2 {
         let g = base(n, 2);
